@@ -85,8 +85,13 @@ All(p, s) == [i \in Idx(p) |-> s]
 \* (shared by the actions below and by the trace monitor RecvPackTrace)
 ObjRejW(stor, c) == CheckObj /\ c.new # 0 /\ c.new \notin stor
 ObjRejL(stor, c) == LocalCheckObj /\ c.new # 0 /\ c.new \notin stor
-CasHit(rf, c, old) == rf[c.r] = old
-CasRefs(rf, c, old) == IF rf[c.r] = old THEN [rf EXCEPT ![c.r] = c.new] ELSE rf
+\* the comparison a ref backend's compare-and-swap makes (set_if_equals / remove_if_equals of the
+\* files backend and of the reftable backend alike): the zero id means "the ref must not exist".
+\* A definition of its own so that a configuration can substitute a backend's defect model for it
+\* (RecvPackMC!CasMatchZeroAny, RecvPack_neg_backend_zero.cfg).
+CasMatch(cur, old) == cur = old
+CasHit(rf, c, old) == CasMatch(rf[c.r], old)
+CasRefs(rf, c, old) == IF CasMatch(rf[c.r], old) THEN [rf EXCEPT ![c.r] = c.new] ELSE rf
 WireStatus(hit) == IF hit \/ ~CheckCas THEN "ok" ELSE "ng"
 LocalStatus(hit) == IF hit THEN "ok" ELSE "ng"
 \* post values of the commands once the push has ended.  A command without a ref operation is
